@@ -405,7 +405,8 @@ impl StringDecoder for Utf8LengthPrefixedDecoder {
         // Convert the data until the found position into a UTF-8 string.
         let result = std::str::from_utf8(
             // Take a slice of data until the position.
-            &data[1 .. position + 1]
+            data.get(1 .. position + 1)
+                .ok_or_else(|| PacketUnderflow.context("Length of string exceeds remaining data"))?
         )
         // If the data cannot be converted into a UTF-8 string, return an error
             .map_err(|e| PacketBad.context(e))?
